@@ -35,6 +35,7 @@ inductive V where
   | cons (h t : V)
   | mnil                         -- map (keys ascending when built by `minsert`)
   | mcons (k : Nat) (h t : V)
+  | node (id : Nat)              -- a node, by handle (only ever returned, never stored)
   deriving DecidableEq, Repr, Inhabited
 
 inductive Err where
@@ -396,6 +397,7 @@ def eval (g : G) (ps : Props) (row : Row) : E → R V
   | .lit v => .ok v
   | .var x => match row.get x with
     | some (.val v) => .ok v
+    | some (.node id) => .ok (.node id)
     | some _ => .error .unsup
     | none => .error .unbound
   | .prop x k => readProp g (row.get x) k
@@ -854,6 +856,11 @@ def renId (ren : List (Nat × Nat)) (i : Nat) : Nat :=
   | some p => p.2
   | none => i
 
+/-- rename the node handles that occur in a returned row -/
+def renV (ren : List (Nat × Nat)) : V → V
+  | .node i => .node (renId ren i)
+  | v => v
+
 def insertBy {α : Type} (key : α → Nat) (x : α) : List α → List α
   | [] => [x]
   | y :: ys => if key x ≤ key y then x :: y :: ys else y :: insertBy key x ys
@@ -883,7 +890,7 @@ def specStmt (ps : Props) (pre : G) (q : Stmt) (obs : Obs) (ren : List (Nat × N
   | .ok (g', rows), .ok post orows =>
     let a := g'.canon []
     let b := post.canon ren
-    a.1 = b.1 && bagEq a.2 b.2 && bagEq rows orows
+    a.1 = b.1 && bagEq a.2 b.2 && bagEq rows (orows.map (·.map (renV ren)))
   | .error _, .err _ post =>
     (post.canon []).1 = (pre.canon []).1 && bagEq (post.canon []).2 (pre.canon []).2
   | _, _ => false
